@@ -1766,6 +1766,18 @@ func (c *RemoteClient) runRequests(ctx context.Context, interrupt <-chan interfa
 			}
 
 		case response := <-c.requestResponseChannel:
+			// A request is always added before its message is sent, so when additions and a
+			// response are both waiting, one of the additions can be the request this response
+			// answers. Select picks randomly, so take the waiting additions first.
+			for adding := true; adding; {
+				select {
+				case request := <-c.addRequestsChannel:
+					c.requests = append(c.requests, request)
+				default:
+					adding = false
+				}
+			}
+
 			err := c.handleRequestResponse(ctx, response.message)
 			if response.response != nil {
 				response.response <- err
